@@ -74,6 +74,8 @@ def build_pool(seed: int):
             seen_kinds.add(kind)
             items.append((f"junk_{kind}_{len(items)}", None, "junk", data, None))
     items.append(("junk_p1_infinite_value", None, "junk", b"1-0:1.7.0(9e9123*kW)\r\n", None))
+    # P1 text that the P1 decoder accepts with an EMPTY dictionary (only multi-valued data sets): accepted is accepted
+    items.append(("p1_only_multivalued_sets", None, "junk", b"0-1:24.2.1(101209112500W)(12785.123*m3)\r\n1-0:99.97.0(2)(0-0:96.7.19)(101208152415W)(0000000240*s)\r\n", None))
     items.append(("junk_ascii_unbalanced", None, "junk", b"1-0:1.8.0(123", None))
     items.append(("junk_ascii_trailing", None, "junk", b"1-0:1.8.0(123)xyz", None))
     items.append(("junk_empty", None, "junk", b"", None))
@@ -207,6 +209,42 @@ class Oracle:
                 self.ctx.violation("C12:instances-share-state", f"decoder {k}: step {step} ({self.pool[hs[k][step]][0]}) differs when another AutoDecoder object is used in between: {got[k][step][1:]} vs alone {want[k][step][1:]}",
                                    {"history": [self.pool[i][0] for i in hs[k]], "payloads": [self.pool[i][3] for i in hs[k]], "step": step, "api": "payload"})
 
+    def check_frame_collision(self, rng) -> None:
+        """Two valid HDLC frames of equal length and equal FCS but different content, decoded one after the other through
+        decode_message on one AutoDecoder: each result must be that of its own payload."""
+        from vf.ref import cosem_enc as ce
+        from vf.ref import fcs16
+
+        def frame_for(reg: int, invoke: bytes) -> bytes:
+            payload = ce.apdu(ce.kaifa_value_body([ce.u32(reg)]), ce.datetime12(2024, 2, 29, 4, 12, 0, 0, None, None, 0), True, invoke)
+            return hdlc_ref.build(0xA, False, b"\x03", b"\x21", 0x13, payload)
+
+        f1 = frame_for(5852, b"\x40\x00\x00\x00")
+        target = f1[-2:]
+        f2 = None
+        for a in range(256):
+            for b in range(256):
+                cand = frame_for(1234, bytes((0x40, a, b, 0x00)))
+                if cand[-2:] == target:
+                    f2 = cand
+                    break
+            if f2:
+                break
+        if f2 is None:
+            return
+        reader = hdlc_mon.new_reader((False, True))
+        frames = reader.read(b"\x7e" + f1 + b"\x7e" + f2 + b"\x7e")
+        if len(frames) != 2 or not all(f.is_valid for f in frames):
+            return
+        dec = self.AutoDecoder()
+        self.ctx.count("frame_fcs_collision_pairs")
+        for f, reg in zip(frames, (5852, 1234)):
+            got, exc, _ = self.budget.call(lambda: dec.decode_message(f), 200_000)
+            want, _e, _ = self.budget.call(lambda: self.AutoDecoder().decode_message_payload(f.payload), 200_000)
+            if exc is not None or got != want or not isinstance(got, dict) or got.get("active_power_import") != reg:
+                self.ctx.violation("C12:decode_message-differs-from-payload:HdlcFrame", f"frame with register {reg} (same length and FCS as the previous frame): decode_message -> {got!r:.80}, decode_message_payload -> {want!r:.80}",
+                                   {"history": ["frame1", "frame2"], "payloads": [bytes(frames[0].payload), bytes(frames[1].payload)], "step": 1, "api": "message"})
+
     def check_message_equivalence(self, pi: int) -> None:
         """decode_message(HDLC frame / DlmsMessage) == decode_message_payload(payload) on twin decoders."""
         from han.common import DlmsMessage
@@ -261,6 +299,7 @@ def run(shard, ctx):
             if shard["rem"] == 0:
                 for pi in range(n):
                     o.check_message_equivalence(pi)
+                o.check_frame_collision(ctx.rng("coll"))
                 ctx.sample({"pool": [(lab, fam, form, len(d)) for lab, fam, form, d, _ in o.pool][:60]})
                 ctx.sample({"history_example": [o.pool[i][0] for i in (0, n - 1)]})
         else:
